@@ -326,37 +326,37 @@ macro_rules! per_len {
             use super::*;
             #[kani::proof]
             #[kani::unwind(9)]
-            fn p1_exit() {
+            pub fn p1_exit() {
                 p1_exit_body($n);
             }
             #[kani::proof]
             #[kani::unwind(9)]
-            fn p1_led() {
+            pub fn p1_led() {
                 p1_variant_body($n, "led", 1, &F_LED, 3, &U_LED);
             }
             #[kani::proof]
             #[kani::unwind(9)]
-            fn p1_read() {
+            pub fn p1_read() {
                 p1_variant_body($n, "rd", 2, &F_READ, 2, &U_READ);
             }
             #[kani::proof]
             #[kani::unwind(9)]
-            fn p1_cfg() {
+            pub fn p1_cfg() {
                 p1_variant_body($n, "cfg", 3, &F_CFG, 3, &U_CFG);
             }
             #[kani::proof]
             #[kani::unwind(9)]
-            fn p2_base() {
+            pub fn p2_base() {
                 p2_subcommand_body($n, 0);
             }
             #[kani::proof]
             #[kani::unwind(9)]
-            fn p2_tup() {
+            pub fn p2_tup() {
                 p2_subcommand_body($n, 1);
             }
             #[kani::proof]
             #[kani::unwind(9)]
-            fn p2_opt() {
+            pub fn p2_opt() {
                 p2_subcommand_body($n, 2);
             }
         }
@@ -491,7 +491,8 @@ fn p2_subcommand_body(n: usize, which: u8) {
         assert!(same_out(&fields, nf, &want, &got), "C09: derived parser and declaration agree");
     }
     kani::cover!(n != 4 || which != 1 || is_exit, "sub-command exit");
-    kani::cover!(n != 5 || which != 2 || is_ping, "sub-command ping after another token");
+    kani::cover!(n != 4 || which != 2 || is_ping, "sub-command ping");
+    kani::cover!(n != 5 || which != 0 || want.kind == DELEGATED, "flag then a sub-command name");
     kani::cover!(n > 0 || want.kind == OK, "no sub-command");
     kani::cover!(n < 2 || want.kind == E_UNEXPECTED_SHORT, "unexpected option before the sub-command");
 }
